@@ -49,7 +49,8 @@ theorem C09_out_of_order_is_noop (s : ApiState) (c : Call) (h : outOfOrder s c) 
      (repeat' split) <;> simp_all)
 
 /-- a live decoder can always be brought to accept an utterance by at most two in-protocol calls that
-succeed: end the running utterance, select a grammar -/
+succeed: end the running utterance, select a grammar.  (`.setGrammar true` is a call whose grammar LOADS —
+a well-formed grammar over dictionary words; that the caller can supply one is assumed, not proved.) -/
 def recover (s : ApiState) : List Call :=
   (if s.utt = .inUtt then [.endUtt false] else []) ++ (if s.search = .none then [.setGrammar true] else [])
 
